@@ -600,7 +600,15 @@ func checkSide(run *MixRun) {
 			}
 			if (endErr == nil) != succeeded {
 				esite := site
-				if cerr, _ := callerErr(r); h.side == 'c' && endErr == nil && cerr != nil && strings.Contains(cerr.Error(), "cannot parse invalid wire-format") {
+				endN := 0
+				for _, ev := range evs {
+					if ev.Kind == "End" {
+						endN = ev.N
+					}
+				}
+				if cerr, _ := callerErr(r); h.side == 'c' && endErr == nil && cerr != nil && strings.Contains(cerr.Error(), "cannot parse invalid wire-format") && r.CFinalEv != 0 && endN != 0 && endN < r.CFinalEv {
+					// (End was emitted before that RecvMsg returned its verdict; an End emitted
+					// after the caller had been handed the decode error is not this finding)
 					// the caller's RecvMsg could not decode a message whose envelope the stream's
 					// read loop had already passed on, together with the final OK status behind it
 					esite += ".undecodable-message-before-ok-status"
